@@ -151,8 +151,9 @@ def c13_stages(tier, seed):
     fam["replay_args"] = ["--reps", "5" if big else "3", "--trace-cap", "400000" if big else "60000"]
     return [
         tlc_check("Spec_ExecSteps_serial", "ExecSteps",
-                  dict(spec="SpecSerial", constants={"N": 5 if big else 4}, invariants=["Serial", "OnceAndCausal"],
-                       properties=["Terminates"] if False else [])),
+                  dict(spec="SpecSerial", constants={"N": 5 if big else 4}, invariants=["Serial", "OnceAndCausal"])),
+        tlc_check("Spec_ExecSteps_live", "ExecSteps",
+                  dict(spec="FairSerial", constants={"N": 3}, properties=["Terminates"])),
         tlc_check("Spec_ExecSteps_asis", "ExecSteps",
                   dict(spec="SpecDeferAll", constants={"N": 3}, invariants=["Serial"]), expect_violation="Serial"),
         fam,
